@@ -306,6 +306,8 @@ func (g *Gen) Next(step int) Op {
 		tgt := 0
 		if r.Chance(35) {
 			tgt = 1
+		} else if r.Chance(12) {
+			tgt = 2 // IBC target
 		}
 		x := int64(100 + r.Intn(5000))
 		if w.Toks[t].Kind == lib.TokExternal {
@@ -325,7 +327,7 @@ func (g *Gen) Next(step int) Op {
 		{"BridgeCallMsg", 6}, {"BridgeCallResult", 6}, {"BridgeCallIn", 5},
 		{"ConvertCoin", 8}, {"ConvertERC20", 7}, {"ConvertDenom", 4}, {"Toggle", 1},
 		{"PreCrossChain", 7}, {"PreBridgeCall", 6}, {"PreCancel", 3}, {"PreIncreaseFee", 3},
-		{"BankSend", 3}, {"Erc20Transfer", 3}, {"WfxDeposit", 2}, {"WfxWithdraw", 2}, {"IbcMint", 2}, {"IbcToBase", 2}, {"BaseToIbc", 2},
+		{"BankSend", 3}, {"Erc20Transfer", 3}, {"WfxDeposit", 2}, {"WfxWithdraw", 2}, {"IbcMint", 2}, {"IbcToBase", 2}, {"BaseToIbc", 2}, {"PreCrossChainIbc", 3}, {"IbcRecv", 2},
 	}
 	if g.Prop == "C08" {
 		for i := range weights {
@@ -563,6 +565,19 @@ func (g *Gen) Next(step int) Op {
 				bal = g.bankBal(a, 0, 0)
 			}
 			return Op{K: k, C: c, T: t, A: a, X: g.amt(bal, 4000), Y: int64(r.Pick(21)), Flag: nat}
+		case "PreCrossChainIbc":
+			a, t = g.holder(true)
+			nat := r.Chance(30)
+			if nat {
+				t = 0
+				return Op{K: k, T: t, A: a, X: g.amt(g.bankBal(a, 0, 0), 3000), Flag: true}
+			}
+			return Op{K: k, T: t, A: a, X: g.amt(g.ercBal(a, t), 3000)}
+		case "IbcRecv":
+			if r.Chance(60) {
+				return Op{K: k, T: 0, A: a, X: g.amt(g.bankBal(aESC, 0, 0), 2000)}
+			}
+			return Op{K: k, T: t, A: a, X: int64(1 + r.Intn(1000))}
 		case "BankSend":
 			a, t = g.holder(false)
 			c = g.chainOf(t)
